@@ -136,4 +136,8 @@ def procPayload : Proc := fun pl c =>
 /-- `handle_data` -/
 def handleData (s : Rx) (c : DChunk) : Rx := handleDataWith procPayload s c
 
+/-- `handle_forward_tsn` -/
+def handleForwardTsn (s : Rx) (newCum : UInt32) (pairs : List (UInt16 × UInt16)) : Rx :=
+  (handleForwardTsnWith procPayload s newCum pairs).1
+
 end RtcModel.Sctp
